@@ -77,7 +77,7 @@ RT = {
 
 RT_RULE = {
     "C01": "writer programs from G-PROGRAM (seeded; every 2nd case sweeps the section-start residue mod 1020 over all 255 four-aligned values, every 7th forces an integer bit width 0..64, every 157th widens a prototype by 300-3000 narrow extension attributes over 2-5 packets; blob/image sources deliver their bytes in pieces); non-trivial = finalized program with >=1 point cloud holding >=1 point; distinct = distinct program shapes (hash of item kinds, prototypes, point counts, blob lengths) among the non-trivial programs",
-    "C04": "metadata-heavy programs (every setter present/absent independently, strings from 12 XML character classes (incl. markup-heavy fragments with hundreds of unclosed tags), wild floats, all image kinds; intensity/colour limits set, replaced or removed by the caller incl. integers beyond 2^53 are judged as metadata too; customised XML handed back with / without a final line break or with trailing blanks must be stored verbatim); non-trivial = finalized program that opened; distinct = number of distinct (field, string class) and (field, present/absent) and image-kind cells actually exercised",
+    "C04": "metadata-heavy programs (every setter present/absent independently, strings from 12 XML character classes (incl. markup-heavy fragments with hundreds of unclosed tags), wild floats, all image kinds, images / point clouds sharing one GUID; intensity/colour limits set, replaced or removed by the caller incl. integers beyond 2^53 are judged as metadata too; customised XML handed back with / without a final line break or with trailing blanks must be stored verbatim); non-trivial = finalized program that opened; distinct = number of distinct (field, string class) and (field, present/absent) and image-kind cells actually exercised",
     "C06": "blob-heavy programs (lengths from boundary table and random up to 5 pages; thorough: first blob length = case index mod 2101, i.e. every length 0..2100; data sources that deliver in pieces (short first piece, 7-byte pieces, alternating); after each blob a caller's writer that accepts only k bytes: Ok(n) only if n bytes arrived, and the blob reads intact afterwards; in a third of the programs some blobs are first offered through a source that fails half-way - that call must fail - and are then added again); non-trivial = blob read back and compared; distinct = distinct (blob length mod 1020) x distinct start positions mod 1020 observed, counted as distinct lengths residues + distinct position residues",
     "C10": "hostile-caller programs: rule-breaking/degenerate prototypes (17 classes, incl. prototypes of 1200..66000 records that are wider than a data packet), a device that is not empty, an empty file GUID, unfitting value vectors (arity, type, out-of-range at every width), abandoned writers, bad extension names; non-trivial = every program (each carries hostile elements or is a control); distinct = distinct program shapes incl. which calls were rejected",
     "C14": "bounds-focused programs (non-NaN; constant/increasing/decreasing/extremes-apart/sign-mixed sequences, interleaved rejected points); non-trivial = finalized program with >=1 point cloud holding >=1 point; distinct = distinct program shapes",
@@ -132,11 +132,11 @@ GEN = {
                 distinct=lambda r: len(r.nums.get("attr_subset", ())), evaluations=lambda r: r.stats.get("option_vectors_run", 0),
                 assumptions=["only unit quaternions; derived spherical coordinates are taken from the un-posed Cartesian value", "points whose coordinates are non-finite are not judged under a pose (inf*0 differs between matrix and quaternion form)", "numeric values of normalised colour/intensity are left to C13; C05 checks presence/absence and un-normalised values exactly"]),
     "C13": dict(workload="simple", extra=["--mode", "c13"], quick=(200000, 40), thorough=(12000000, 600), both=True,
-                rule="point clouds whose intensity/colour attributes take every data type (single/double open/bounded, integer, scaled integer of widths 0..64, degenerate) x 10 limit classes (absent, complete same type, complete mixed, partial via XML line removal, equal, reversed, extreme, non-finite, complete other type, tiny/subnormal width) x sorted value ladders (for complete same-type limits incl. values exactly at both limits and single-precision limits that are no dyadic fractions; the expectation then uses the limits written, not the reader's report of them; integer limits on scaled attributes) x 4 settings of the two normalisation switches; non-trivial = (type class, limit class, switch) cell in which delivered values were checked; distinct = number of such distinct cells",
+                rule="point clouds whose intensity/colour attributes take every data type (single/double open/bounded/one-sided, integer, scaled integer of widths 0..64, degenerate) x 10 limit classes (absent, complete same type, complete mixed, partial via XML line removal, equal, reversed, extreme, non-finite, complete other type, tiny/subnormal width) x sorted value ladders (for complete same-type limits incl. values exactly at both limits and single-precision limits that are no dyadic fractions; the expectation then uses the limits written, not the reader's report of them; integer limits on scaled attributes) x 4 settings of the two normalisation switches; non-trivial = (type class, limit class, switch) cell in which delivered values were checked; distinct = number of such distinct cells",
                 distinct=lambda r: len([k for k in r.cover if k.startswith("cell:")]), evaluations=lambda r: r.stats.get("clouds", 0),
                 assumptions=["expected value = clamp((v-min)/(max-min)) in f64 with halved operands, tolerance 2 ulp(f32) + 2e-7", "when limits are complete but of mixed/other type either candidate range is accepted; the invariants ([0,1], no NaN, monotone) are always required", "a reader that refuses unusable limits (reversed, non-finite) when the iterator is created is not a C13 matter"]),
     "C08": dict(workload="fuzz", extra=[], quick=(400000, 60), thorough=(12000000, 1200), both=True, abort_prop="C08", libfuzzer=600,
-                rule="structure-aware mutants (38 operators: XML numbers/attributes/types/structure (incl. removal of whole elements) incl. NaN, inf, extreme integers, huge and empty prototypes, entity expansion (nested, and flat: one 64/512 KiB entity referenced thousands of times), deep nesting, bad UTF-8; file-header, section-header, packet-header, stream-length and blob-header fields set to hostile values; payload bit flips; splices; ignored-packet chains; all pages re-sealed with the harness CRC; plus unsealed flips, truncations, extensions, tiny inputs; 25% stacked twice) of 14 bundled test files and 12 generated files, each fed to validate_crc, raw_xml, E57Reader::new, all getters, raw iterator, simple iterator (all 64 option vectors for the first two seeds, 4 otherwise), descriptor and hostile blobs, size_hint before every step and the public value conversion helpers on the first yielded points; every call under catch_unwind + panic hook in a checked-arithmetic build; shard aborts are attributed to the journaled case; thorough additionally drives a coverage-guided libFuzzer target (fuzz/: input = logical stream, re-paged and sealed) for 10 minutes on 16 forks as a further workload source; non-trivial = mutated input executed; distinct = distinct input byte strings (FNV-64)",
+                rule="structure-aware mutants (38 operators: XML numbers/attributes/types/structure (incl. removal of whole elements) incl. NaN, inf, extreme integers, huge and empty prototypes (incl. 65 535..70 003 records of zero width), entity expansion (nested, and flat: one 64/512 KiB entity referenced thousands of times), deep nesting, bad UTF-8; file-header, section-header, packet-header, stream-length and blob-header fields set to hostile values; payload bit flips; splices; ignored-packet chains; all pages re-sealed with the harness CRC; plus unsealed flips, truncations, extensions, tiny inputs; 25% stacked twice) of 14 bundled test files and 12 generated files, each fed to validate_crc, raw_xml, E57Reader::new, all getters, raw iterator, simple iterator (all 64 option vectors for the first two seeds, 4 otherwise), descriptor and hostile blobs, size_hint before every step and the public value conversion helpers on the first yielded points; every call under catch_unwind + panic hook in a checked-arithmetic build; shard aborts are attributed to the journaled case; thorough additionally drives a coverage-guided libFuzzer target (fuzz/: input = logical stream, re-paged and sealed) for 10 minutes on 16 forks as a further workload source; non-trivial = mutated input executed; distinct = distinct input byte strings (FNV-64)",
                 distinct=lambda r: len(r.nums.get("input_identity", ())), evaluations=lambda r: r.stats.get("inputs", 0),
                 extra_cov=lambda r: {"inputs_opened": r.stats.get("inputs_opened", 0), "inputs_reached_packet_decoding": r.stats.get("inputs_reached_packet_decoding", 0), "simple_iterations_with_points": r.stats.get("inputs_reached_simple_points", 0),
                                      "calls_monitored": r.stats.get("calls_monitored", 0) + r.stats.get("iterator_steps_monitored", 0), "distinct_error_classes_seen": len(r.nums.get("error_class", ())), "panics": sum(v for k, v in r.sigcounts.items() if k.startswith("C08/panic")),
@@ -245,7 +245,7 @@ def c07(prop, tier, seed):
                     res.inconclusive.append({"why": "valgrind run failed to execute", "rc": p.returncode, "stderr": p.stderr[-400:]})
     finally:
         cleanup(wd)
-    rule = ("one case = (small generated file of 2..12 pages, page): EVERY single-bit flip of the page (8192, payload and checksum bytes) plus sampled 2-/3-bit flips (same page and across pages), bursts <=32 bits at every bit phase, random overwrites and one file of about 67 000 pages with a flipped bit in pages around 2^8..2^16 and in random pages (whole-file validation and the read of the covering blob must both fail), structured forgeries of the checksum field (CRC-32C little-endian, complemented, bit-reversed, rotated by 8/16/24, byte pairs swapped, CRC-32/IEEE in both byte orders, all zero, all ones; on the intact payload and on a payload with one flipped bit); on each altered image: validate_crc must fail (guaranteed classes), E57Reader::new either fails or reports exactly the intact descriptors/header/xml, then a shuffled operation sequence with repetitions (raw, simple, blobs, descriptors) where each result is Err or equal to the intact file's; stored checksums are compared with an independent bitwise CRC-32C; every iterator is called again up to three times after an Err and every Ok item (before or after an error) must be the intact file's item at that position; every file is also re-paged to 1023/1022/1021/517/514/259/2048-byte pages with the independent CRC and validate_crc / raw_xml must accept it and detect a flipped bit in a page tail (payload lengths that are not a multiple of 4); the same seeded workload runs on the built-in and on the crc32c back-end and file/verdict digests must agree; "
+    rule = ("one case = (small generated file of 2..12 pages, page): EVERY single-bit flip of the page (8192, payload and checksum bytes) plus sampled 2-/3-bit flips (same page and across pages), bursts <=32 bits at every bit phase, random overwrites and files with runs of byte-identical pages (constant blobs), one file of about 67 000 pages with a flipped bit in pages around 2^8..2^16 and in random pages (whole-file validation and the read of the covering blob must both fail), structured forgeries of the checksum field (CRC-32C little-endian, complemented, bit-reversed, rotated by 8/16/24, byte pairs swapped, CRC-32/IEEE in both byte orders, all zero, all ones; on the intact payload and on a payload with one flipped bit); on each altered image: validate_crc must fail (guaranteed classes), E57Reader::new either fails or reports exactly the intact descriptors/header/xml, then a shuffled operation sequence with repetitions (raw, simple, blobs, descriptors) where each result is Err or equal to the intact file's; stored checksums are compared with an independent bitwise CRC-32C; every iterator is called again up to three times after an Err and every Ok item (before or after an error) must be the intact file's item at that position; every file is also re-paged to 1023/1022/1021/517/514/259/2048-byte pages with the independent CRC and validate_crc / raw_xml must accept it and detect a flipped bit in a page tail (payload lengths that are not a multiple of 4); the same seeded workload runs on the built-in and on the crc32c back-end and file/verdict digests must agree; "
             "non-trivial = altered image; distinct = pages flipped exhaustively (each contributes 8192 distinct images)")
     distinct = res.stats.get("pages_flipped_exhaustively", 0)
     extra = dict(notes)
@@ -576,7 +576,7 @@ def c12(prop, tier, seed):
         wp_w = res.nums.get("width_phase", set())
     finally:
         cleanup(wd)
-    rule = ("grid = widths 0..64 x range shapes {2^w-1, 2^(w-1), 2^(w-1)+1} x minimum {0, -range/2, i64::MIN, i64::MAX-range, random} x value sets {all-min, all-max, alternating, walking one, random} (quick: one shape and two minima per width). Reader direction: the independent encoder writes each cell with the target stream cut at EVERY byte position (<=40) into two packets and at sampled pairs into three, beside a float stream and a second bit-packed stream; the crate's raw reader must return the encoded values. Both directions also get point clouds of 65 535..200 000 points of 1-7 bits each, i.e. far more than 2^16 values of one byte stream in a single packet. "
+    rule = ("grid = widths 0..64 x range shapes {2^w-1, 2^(w-1), 2^(w-1)+1} x minimum {0, -range/2, i64::MIN, i64::MAX-range, random} x value sets {all-min, all-max, alternating, walking one, random} (quick: one shape and two minima per width). Reader direction: the independent encoder writes each cell with the target stream cut at EVERY byte position (<=40) into two packets and at sampled pairs into three, beside a float stream and a second bit-packed stream; the crate's raw reader must return the encoded values. The target stream is also trickled one byte per packet (up to 13 packets) while another stream arrives complete in the first or only in the last packet. Both directions also get point clouds of 65 535..200 000 points of 1-7 bits each, i.e. far more than 2^16 values of one byte stream in a single packet. "
             "Writer direction: the crate writes point clouds with a record of the focused width and the value set; the independent decoder requires stream length = ceil(N*w/8) (floats 4/8 bytes) and value-min in w bits LSB-first contiguous across bytes and packets; non-trivial = grid cell executed; distinct = distinct cells (reader) + distinct (width, value set) cells (writer)")
     distinct = res.stats.get("reader_cells", 0) + len(res.nums.get("grid_cell", ()))
     extra = {"reader_cells": res.stats.get("reader_cells", 0), "reader_width_phase_pairs": len(wp), "reader_cut_positions": len(cutpos), "reader_values_compared": res.stats.get("reader_values_compared", 0),
@@ -640,7 +640,7 @@ def c18(prop, tier, seed):
         res.merge(run_shards(b, "roundtrip", ["--mode", "c18"], cases, secs, seed, tier, wd, "extattr", prop))
     finally:
         cleanup(wd)
-    rule = ("(a) scenes encoded twice with the same layout by the independent encoder: once plain, once with 1-5 elements of a foreign namespace inserted at 14 kinds of sites outside prototypes (before/after/between standard siblings at root, data3D, point cloud and image level), with local names equal to standard names (52 names) or random, as leaves of every type, vectors, structures, structures mimicking whole standard subtrees foreign child elements INSIDE standard leaf elements (in front of / behind their text), and runs of 3-520 flat empty elements whose attribute values contain '>', '/>', '-->', ']]>' or the other kind of quote, in three namespace forms (prefix declared on the root, prefix declared locally, default namespace redeclared on the element), plus foreign attributes - also named like standard attributes (fileOffset, length, recordCount, type ...) in front of or behind the standard ones - on the root and on standard elements; the reader's dumps (minus XML text, header lengths, extension list) must be identical; "
+    rule = ("(a) scenes encoded twice with the same layout by the independent encoder: once plain, once with 1-5 elements of a foreign namespace inserted at 14 kinds of sites outside prototypes (before/after/between standard siblings at root, data3D, point cloud and image level), with local names equal to standard names (52 names) or random, as leaves of every type, vectors, structures, structures mimicking whole standard subtrees foreign child elements INSIDE standard leaf elements (in front of / behind their text), foreign elements in front of ANY standard element of ANY structure (pose, rotation, bounds, limits, date/time, image representations; named like the element they precede, like another standard element, or randomly), and runs of 3-520 flat empty elements whose attribute values contain '>', '/>', '-->', ']]>' or the other kind of quote, in three namespace forms (prefix declared on the root, prefix declared locally, default namespace redeclared on the element), plus foreign attributes - also named like standard attributes (fileOffset, length, recordCount, type ...) in front of or behind the standard ones - on the root and on standard elements; the reader's dumps (minus XML text, header lengths, extension list) must be identical; "
             "(a2) pairs that differ only in where the prefix of an extension attribute is declared (root / vectorChild / points / prototype / the record itself); (b) writer programs whose prototypes carry extension attributes over all accepted names and namespaces, half of them named like standard attributes; prototype, values and all standard descriptors must read back unchanged; non-trivial = pair compared / program read back; distinct = distinct (site, name class, element kind) cells + pairs")
     distinct = len([k for k in cover if k.startswith("site:")]) + res.stats.get("pairs_compared", 0)
     extra = {"pairs_compared": res.stats.get("pairs_compared", 0), "insertion_cells": len([k for k in cover if k.startswith("site:")]), "ext_attr_programs": res.stats.get("programs", 0), "ext_attrs_with_standard_names": res.cover.get("ext-attr:standard-name", 0), "ext_attrs_other": res.cover.get("ext-attr:other-name", 0)}
@@ -794,7 +794,7 @@ def c20(prop, tier, seed):
     finally:
         cleanup(wd)
     rule = ("the five tools are built from the workspace and run as child processes. XYZ files (0..20000 lines; single-space separated; coordinates = random finite f32 bit patterns, extremes, subnormals, +-0 printed with 9 significant digits; colours incl. a sweep over all 256 values and files opening with a run of black / white / one repeated colour; extra columns, leading space, blank and short lines) go through e57-from-xyz | e57-to-xyz and must come back numerically unchanged and in order; "
-            "E57 files from the independent encoder and from the crate's writer, intact and with one flipped bit: e57-check-crc's exit status must equal the verdict of the independent CRC (single files, and folders mixing intact and damaged files in several directory orders), e57-extract-xml's stdout must equal the XML section located by the independent decoder (incl. XML without line breaks, without a final newline and with 1500 trailing spaces, and files whose pages are intact but whose XML no parser accepts), e57-unpack's metadata.xml / CSV values / image files must equal what the library reports (harness observation log); non-trivial = tool run judged; distinct = distinct input files")
+            "E57 files from the independent encoder and from the crate's writer, intact and with one flipped bit: e57-check-crc's exit status must equal the verdict of the independent CRC (single files, and folders mixing intact and damaged files in several directory orders, extensions .e57 and .E57), e57-extract-xml's stdout must equal the XML section located by the independent decoder (incl. XML without line breaks, without a final newline and with 1500 trailing spaces, and files whose pages are intact but whose XML no parser accepts), e57-unpack's metadata.xml / CSV values / image files must equal what the library reports (harness observation log) and it must not exit 0 on a file whose points the library cannot read to the end; non-trivial = tool run judged; distinct = distinct input files")
     assumptions = ["XYZ lines with fewer than six columns are skipped (documented); colour is columns 4-6", "check-crc is only run on files of whole-page size", "CSV numbers are compared numerically with the exact bit patterns (textual form is the tools' choice)"]
     extra = {"xyz_points_compared": res.stats.get("xyz_points_compared", 0), "colour_values_covered": cover.get("colour_values_covered", 0), "tool_runs": res.stats.get("tool_runs", 0), "e57_inputs": {k[11:]: v for k, v in cover.items() if k.startswith("e57_inputs:")}}
     return finish(prop, tier, seed, level(prop), res, rule, res.stats.get("xyz_runs", 0) + res.stats.get("e57_files", 0), res.stats.get("tool_runs", 0), assumptions, t0, extra)
